@@ -5,6 +5,15 @@
 
 pub use shuttle::sync::{RwLock, RwLockReadGuard, RwLockWriteGuard};
 pub use std::sync::{LockResult, PoisonError, TryLockError, TryLockResult};
+// Not used by the pinned eyeball; exported so that a changed eyeball that reaches for more of
+// `crate::sync_impl` still builds under the simulator (all scheduler-controlled).
+pub use shuttle::sync::{Barrier, Condvar, Mutex, MutexGuard, Once};
+pub mod atomic {
+    pub use shuttle::sync::atomic::*;
+}
+pub mod mpsc {
+    pub use shuttle::sync::mpsc::*;
+}
 
 use std::fmt;
 use std::ops::Deref;
@@ -160,5 +169,76 @@ impl<T: ?Sized> fmt::Debug for Weak<T> {
 impl<T> Default for Weak<T> {
     fn default() -> Self {
         Weak::new()
+    }
+}
+
+// ---- the rest of the commonly used std API, so that a changed eyeball keeps building ----
+
+impl<T> Arc<T> {
+    pub fn new_cyclic<F: FnOnce(&Weak<T>) -> T>(f: F) -> Self {
+        Arc(std::sync::Arc::new_cyclic(|w| {
+            let w2 = Weak(w.clone());
+            let r = f(&w2);
+            // release the temporary without a scheduling point (the allocation is under construction)
+            let m = std::mem::ManuallyDrop::new(w2);
+            // SAFETY: `m` is never used or dropped again.
+            drop(unsafe { std::ptr::read(&m.0) });
+            r
+        }))
+    }
+    pub fn unwrap_or_clone(this: Self) -> T
+    where
+        T: Clone,
+    {
+        Arc::try_unwrap(this).unwrap_or_else(|a| (*a).clone())
+    }
+}
+
+impl<T: ?Sized> Arc<T> {
+    pub fn as_ptr(this: &Self) -> *const T {
+        std::sync::Arc::as_ptr(&this.0)
+    }
+}
+
+impl<T: Clone> Arc<T> {
+    pub fn make_mut(this: &mut Self) -> &mut T {
+        point();
+        std::sync::Arc::make_mut(&mut this.0)
+    }
+}
+
+impl<T: ?Sized + PartialEq> PartialEq for Arc<T> {
+    fn eq(&self, other: &Self) -> bool {
+        self.0 == other.0
+    }
+}
+impl<T: ?Sized + Eq> Eq for Arc<T> {}
+impl<T: ?Sized + std::hash::Hash> std::hash::Hash for Arc<T> {
+    fn hash<H: std::hash::Hasher>(&self, state: &mut H) {
+        self.0.hash(state)
+    }
+}
+impl<T: ?Sized + fmt::Display> fmt::Display for Arc<T> {
+    fn fmt(&self, f: &mut fmt::Formatter<'_>) -> fmt::Result {
+        self.0.fmt(f)
+    }
+}
+impl<T: ?Sized> AsRef<T> for Arc<T> {
+    fn as_ref(&self) -> &T {
+        &self.0
+    }
+}
+impl<T: ?Sized> std::borrow::Borrow<T> for Arc<T> {
+    fn borrow(&self) -> &T {
+        &self.0
+    }
+}
+
+impl<T: ?Sized> Weak<T> {
+    pub fn ptr_eq(&self, other: &Self) -> bool {
+        self.0.ptr_eq(&other.0)
+    }
+    pub fn as_ptr(&self) -> *const T {
+        self.0.as_ptr()
     }
 }
